@@ -345,8 +345,9 @@ public:
     template<class T2, class R = ResultType<T, T2>>
     base_array<R>& operator+=(const T2& rhs) noexcept {
         static_assert(std::is_same_v<T, R>, "the operation changes the type");
+        const T2 val = rhs;   //rhs may alias an element of this array
         for (size_t i = 0; i < _vec.size(); ++i) {
-            _vec[i] += rhs;
+            _vec[i] += val;
         }
         return *this;
     }
@@ -354,8 +355,9 @@ public:
     template<class T2, class R = ResultType<T, T2>>
     base_array<R>& operator-=(const T2& rhs) noexcept {
         static_assert(std::is_same_v<T, R>, "the operation changes the type");
+        const T2 val = rhs;   //rhs may alias an element of this array
         for (size_t i = 0; i < _vec.size(); ++i) {
-            _vec[i] -= rhs;
+            _vec[i] -= val;
         }
         return *this;
     }
@@ -363,8 +365,9 @@ public:
     template<class T2, class R = ResultType<T, T2>>
     base_array<R>& operator*=(const T2& rhs) noexcept {
         static_assert(std::is_same_v<T, R>, "the operation changes the type");
+        const T2 val = rhs;   //rhs may alias an element of this array
         for (size_t i = 0; i < _vec.size(); ++i) {
-            _vec[i] *= rhs;
+            _vec[i] *= val;
         }
         return *this;
     }
@@ -372,8 +375,9 @@ public:
     template<class T2, class R = ResultType<T, T2>>
     base_array<R>& operator/=(const T2& rhs) noexcept {
         static_assert(std::is_same_v<T, R>, "the operation changes the type");
+        const T2 val = rhs;   //rhs may alias an element of this array
         for (size_t i = 0; i < _vec.size(); ++i) {
-            _vec[i] /= rhs;
+            _vec[i] /= val;
         }
         return *this;
     }
